@@ -126,7 +126,19 @@ def rbu_case(ctx, lines=None, pend=None):
     fn = 'randomizer_bin_und'
     n = int(r.randint(4, 10)); dens = float(r.choice([0.2, 0.4, 0.6, 0.8]))
     A = np.triu((r.rand(n, n) < dens).astype(float), 1); A = A + A.T
+    # branches of the wrapper: full nodes (masked, restored), isolated nodes (= full nodes of the complement of a dense graph)
+    shape = r.rand()
+    if shape < 0.3:
+        z = int(r.randint(n)); A[z, :] = 0; A[:, z] = 0; ctx.count('rbu:isolated-node')
+    elif shape < 0.6:
+        z = int(r.randint(n)); A[z, :] = 1; A[:, z] = 1; A[z, z] = 0; ctx.count('rbu:full-node')
+    elif shape < 0.7:
+        z, w = r.choice(n, 2, replace=False); A[z, :] = 0; A[:, z] = 0; A[w, :] = 1; A[:, w] = 1; A[w, w] = 0; A[z, w] = A[w, z] = 0
+        ctx.count('rbu:isolated+almost-full')
+    ctx.count('rbu:dense' if A.sum() / 2 > (n * n - n) / 4 else 'rbu:sparse')
     alpha = float(r.choice([0.3, 1.0])); seed = int(r.randint(1, 2 ** 31 - 1))
+    if r.rand() < 0.25:
+        A = A.astype(int); ctx.count('rbu:int-dtype')      # integer 0/1 input (raised OverflowError before the fix)
     case = {'fn': fn, 'A': A.astype(int).tolist(), 'itr': alpha, 'seed': seed}
     _verif.reset()
     try:
